@@ -1137,9 +1137,9 @@ def check(ctx):
         ctx.case(case_key(case, nb))
         if v:
             report(ctx, v[0], v[1], v[2])
-    n_stat = ctx.budget(1400, 9000)
-    n_quant = ctx.budget(450, 2400)
-    n_hist = ctx.budget(550, 3000)
+    n_stat = ctx.budget(1000, 9000)
+    n_quant = ctx.budget(320, 2400)
+    n_hist = ctx.budget(400, 3000)
     for i in range(n_stat):
         tool = STAT_TOOLS[i % len(STAT_TOOLS)]
         mn = max_n if i % 5 else min(max_n, 8)
